@@ -353,6 +353,13 @@ TBgWork ==
   /\ l' = l + 1
   /\ UNCHANGED <<lastRound, pend, confs, held, nextKey, lastList, listOk, two>>
 
+\* the code under test panicked inside a call: neither an error nor a success
+TPanic ==
+  /\ IsEv("Panic")
+  /\ viol' = viol \o V(<<"C17", "C09">>, "Panic", <<Ev.c>>, 0)
+  /\ l' = l + 1
+  /\ UNCHANGED <<runInfo, lastRound, pend, confs, held, nextKey, lastList, listOk, two>>
+
 THang ==
   /\ IsEv("Hang")
   /\ viol' = viol \o C17("Hang", <<Ev.c>>, 0)
@@ -362,7 +369,7 @@ THang ==
 ---------------------------------------------------------------------------
 TraceNext ==
   \/ TReset \/ TEnd \/ TRound \/ TCall \/ TProbeCall \/ TProbeRet
-  \/ TOpenRet \/ TCloseRet \/ TDestroyRet \/ TWipe \/ TGate \/ TListing \/ THang \/ TBgWork
+  \/ TOpenRet \/ TCloseRet \/ TDestroyRet \/ TWipe \/ TGate \/ TListing \/ THang \/ TBgWork \/ TPanic
 
 TraceSpec == TraceInit /\ [][TraceNext]_vars
 
